@@ -131,6 +131,35 @@ func c14equivalent(g *docgen, c c14case) []c14case {
 		d.doc.set("commands", dList(dStr(cmd.s)))
 		out = append(out, d)
 	}
+	// "no config" is one content however it is spelled: null, an empty mapping, an empty list, or the plugin written
+	// as a bare string
+	f := c.clone()
+	if p := f.doc.get("plugins"); p != nil && p.kind == 'l' {
+		changed := false
+		for i, el := range p.l {
+			empty := func(d *dv) bool { return d.kind == 'n' || d.kind == 'm' && len(d.m) == 0 || d.kind == 'l' && len(d.l) == 0 }
+			switch {
+			case el.kind == 's':
+				p.l[i] = dMap(dkv{el.s, sx.Pick(g.rng, []*dv{dMap(), dNull(), dList()})})
+				changed = true
+			case el.kind == 'm' && len(el.m) == 1 && empty(el.m[0].v):
+				switch g.rng.Intn(4) {
+				case 0:
+					p.l[i] = dStr(el.m[0].k)
+				case 1:
+					el.m[0].v = dMap()
+				case 2:
+					el.m[0].v = dNull()
+				default:
+					el.m[0].v = dList()
+				}
+				changed = true
+			}
+		}
+		if changed {
+			out = append(out, f)
+		}
+	}
 	e := c.clone()
 	e.doc.set("label", dStr("another label"))
 	e.doc.set("key", dStr("another-key"))
@@ -269,6 +298,47 @@ func c14different(g *docgen, c c14case) []c14case {
 		}
 		return false
 	})
+	// a short-form source with an empty path segment (org//name, name/) is not the short form any more
+	for variant := 0; variant < 2; variant++ {
+		variant := variant
+		add(func(n *c14case) bool {
+			p := n.doc.get("plugins")
+			if p == nil || p.kind != 'l' {
+				return false
+			}
+			for _, e := range p.l {
+				var src *string
+				switch {
+				case e.kind == 's':
+					src = &e.s
+				case e.kind == 'm' && len(e.m) == 1:
+					src = &e.m[0].k
+				}
+				if src == nil {
+					continue
+				}
+				name, ref, hasRef := strings.Cut(*src, "#")
+				if name == "" || strings.ContainsAny(name, ":\\.") || strings.HasPrefix(name, "/") || strings.Count(name, "/") > 1 {
+					continue
+				}
+				if variant == 0 {
+					if i := strings.Index(name, "/"); i >= 0 {
+						name = name[:i] + "//" + name[i+1:]
+					} else {
+						name = name + "/"
+					}
+				} else {
+					name = name + "/"
+				}
+				*src = name
+				if hasRef {
+					*src += "#" + ref
+				}
+				return true
+			}
+			return false
+		})
+	}
 	// a plugin named x and one named x-buildkite-plugin are different plugins
 	add(func(n *c14case) bool {
 		p := n.doc.get("plugins")
